@@ -327,6 +327,30 @@ class ExprMixin:
         if isinstance(node.op, (ast.FloorDiv, ast.Mod, ast.Div)) and not (a.ty == T.STR):
             if not is_const(b) and T.is_num(b.ty):
                 self.safety(st, lift(b) != 0, "ZeroDivisionError", node)
+        if isinstance(node.op, ast.Mult):
+            # `[c] * n` / `n * [c]` with a symbolic int n: a fresh list of length max(n, 0) whose every element is c
+            for lst, cnt in ((a, b), (b, a)):
+                if lst.is_py and isinstance(lst.py, list) and len(lst.py) == 1 and not cnt.is_py and cnt.ty == T.INT:
+                    if self.qstack:
+                        raise Unsupported("list repetition with a symbolic count inside a quantified expression", node)
+                    x = lst.py[0] if isinstance(lst.py[0], Val) else Val.const(lst.py[0])
+                    want = getattr(self, "_assign_want", None)
+                    if isinstance(want, T.List):
+                        lt = want
+                    elif x.ty is not PYOBJ:
+                        lt = T.List(x.ty)
+                    else:
+                        pt = ops.py_type_of(x.py) if is_const(x) and x.py is not None else None
+                        if pt is None or pt is PYOBJ:
+                            raise Unsupported("[c] * n: element of unknown type (declare the local's type)", node)
+                        lt = T.List(pt)
+                    xv = lift(x, lt.elem)
+                    n = lift(cnt)
+                    r_ = fresh(lt, "rep")
+                    i_ = z3.Int(fresh_name("ri"))
+                    st.assume(z3.Length(r_) == z3.If(n > 0, n, 0))
+                    st.assume(z3.ForAll([i_], z3.Implies(z3.And(i_ >= 0, i_ < z3.Length(r_)), r_[i_] == xv), patterns=[r_[i_]]))
+                    return Val(lt, r_)
         r = ops.binop(node.op, a, b, node)
         if isinstance(node.op, ast.Add) and isinstance(r.ty, T.List) and not r.is_py and getattr(self.c, "seq_bridge", False):
             from . import models
